@@ -3,6 +3,7 @@ mirror-maintaining primitives). DESIGN.md 4.A."""
 from core import callee_path, last_field, rv_operands
 from vocab import INNER, TAG_T
 from rules.base import Result, where, line_of
+from cond import sources
 from rules.accounting import partial_op_sites, deep_root, operand_deep_root, CTRL_BULK_EXT, _is_tag_subst
 
 
@@ -472,7 +473,32 @@ def _topo(body, backedges):
 
 # --------------------------------------------------------------------- R-CTRL-WRITE
 
+def _ctrl_index_of(body, ptr_op):
+    """the index operand of the ctrl(index) call a pointer operand comes from (through copies / casts), or None"""
+    o = ptr_op
+    for _ in range(6):
+        if o["k"] not in ("copy", "move") or o["p"].get("proj"):
+            return None
+        d = body.single_def(o["p"]["l"])
+        if not d:
+            return None
+        if d[0] == "call":
+            if (callee_path(d[3]) or "").endswith("RawTableInner::ctrl") and len(d[3]["args"]) > 1:
+                return d[3]["args"][1]
+            if (callee_path(d[3]) or "").endswith("::cast") and d[3]["args"]:
+                o = d[3]["args"][0]
+                continue
+            return None
+        rv = d[3]["rv"]
+        if rv["k"] in ("use", "cast"):
+            o = rv["op"]
+        else:
+            return None
+    return None
+
+
 def r_ctrl_write(F, V):
+    from rules.arith import cls
     R = Result("R-CTRL-WRITE", F.cfg)
     width = None
     for cpath, c in F.consts.items():
@@ -486,10 +512,29 @@ def r_ctrl_write(F, V):
         if not sites:
             continue
         n += 1
-        direct = [s for s in sites if s["desc"].startswith("store through")]
+        direct = [s for s in sites if s["desc"].startswith("store through") and "stmt" in s]
+        prim = [s for s in sites if s["desc"].startswith("store through") and "stmt" not in s]
         bulk = [s for s in sites if not s["desc"].startswith("store through")]
         key = "%s|ctrl-writes" % p
         problems = []
+        def _mirror_store_present():
+            for s2 in direct:
+                d2 = body.single_def(s2["stmt"]["p"]["l"])
+                if d2 and d2[0] == "call" and (callee_path(d2[3]) or "").endswith("RawTableInner::ctrl"):
+                    og = body.origins(d2[3]["args"][1])
+                    calls = _calls_in_origins(og)
+                    if any(o[0] == "load" and (last_field(o[1]) or {}).get("name") == "bucket_mask" for o in og) and any(o[0] == "binop" and o[1] == "BitAnd" for o in og) \
+                            and any(o[0] == "binop" and o[1].startswith("Add") for o in og) and any(c.endswith("wrapping_sub") for c in calls):
+                        return True
+            return False
+        if prim and _mirror_store_present():
+            # set_ctrl written with a library primitive for the byte itself (to get the previous tag back) plus the assignment to the mirror
+            prim_ok = prim
+            prim = []
+            direct_for_shape = direct
+            direct = []     # the two-store shape check below does not apply to this spelling
+        for s in prim:
+            problems.append("a single control byte is written with %s outside set_ctrl: the mirrored copy behind the table (for indices below the group width) is not updated, so a probe that starts in the last buckets and wraps around reads a stale tag" % s["desc"].rsplit(" ", 1)[-1])
         if direct:
             # set_ctrl shape: exactly two stores of the same operand; the second pointer is ctrl(((i - WIDTH) & mask) + WIDTH)
             vals = set()
@@ -538,7 +583,21 @@ def r_ctrl_write(F, V):
                 copies = [j for j, tt in body.calls() if (callee_path(tt) or "") in CTRL_BULK_EXT and _is_tag_subst(tt["f"])]
                 after = _reach_after(body, s["bb"])
                 reach_ret_without = body.reachable_from(s["bb"], tuple(copies))
-                if not copies or any(r in reach_ret_without for r in body.returns):
+                # ... or by a group store onto the tail itself (ctrl(buckets())) of a value that went through the same conversion as
+                # the stores it mirrors
+                tail_stores = []
+                for j, tt in body.calls():
+                    if "store_aligned" in (callee_path(tt) or "") or (callee_path(tt) or "").endswith("Group::store"):
+                        if len(tt["args"]) > 1 and cls(body, _ctrl_index_of(body, tt["args"][1])) == "BUCKETS" if _ctrl_index_of(body, tt["args"][1]) is not None else False:
+                            Sv = sources(body, tt["args"][0])
+                            conv_here = any("convert_special" in c for c in sources(body, t["args"][0]).calls)
+                            if (not conv_here) or any("convert_special" in c for c in Sv.calls):
+                                tail_stores.append(j)
+                if s["bb"] in tail_stores:
+                    continue
+                closers = tuple(copies) + tuple(tail_stores)
+                reach_ret_without = body.reachable_from(s["bb"], closers)
+                if not closers or any(r in reach_ret_without for r in body.returns):
                     problems.append("group-wise stores are not followed on every path by a copy of the leading control bytes onto the mirrored tail")
             elif cp in CTRL_BULK_EXT:
                 if p.endswith("prepare_rehash_in_place"):
